@@ -9,6 +9,7 @@ import Driver.AstLoad
 import Swiftness.Prover.MerkleProver
 import Swiftness.Prover.FriProver
 import Swiftness.Model.LayoutStatic
+import Swiftness.Model.LayoutDynamic
 
 namespace Swiftness.Driver
 open Swiftness Swiftness.Proto
@@ -44,9 +45,16 @@ structure Ctx where
   layouts : List LayoutProgs := []
   /-- full data of the static layouts (for the pipeline ops) -/
   data : List LayoutData := []
+  /-- the dynamic layout (translated data + assertion list) -/
+  dyn : Option DynData := none
 
 def Ctx.find? (c : Ctx) (n : String) : Option LayoutProgs := c.layouts.find? (·.name == n)
 def Ctx.data? (c : Ctx) (n : String) : Option LayoutData := c.data.find? (·.name == n)
+/-- the `LayoutOps` of layout `n` (static: generic model over translated data; dynamic: `LayoutDynamic`) and its
+    interaction-element field names -/
+def Ctx.lay? (c : Ctx) (H : Hashes) (n : String) : Option (LayoutOps × List String) :=
+  if n == "dynamic" then c.dyn.map fun D => (D.ops H, D.base.interactionFields)
+  else (c.data? n).map fun D => (D.ops H, D.interactionFields)
 
 
 
@@ -131,6 +139,16 @@ def answer? (ctx : Ctx) (H : Hashes) (_stone6 : Bool) (toks : List String) : Opt
     if idx.length ≠ val.length then none else
     let qs := (idx.zip val).map fun (i, v) => (⟨i, v⟩ : Vector.Query)
     pure (out unit (Vector.decommit H ⟨⟨← felt? h, ← felt? nf⟩, ← felt? root⟩ qs (← felts? auths)))
+  | ["vroot", h, nf, idx, val, auths] => do
+    -- the root `compute_root_from_queries` arrives at (for sparse instances of tall trees: the generators take the honest root from here;
+    -- C04's theorems cover the model at every height)
+    let idx ← felts? idx; let val ← felts? val
+    if idx.length ≠ val.length then none else
+    let hF ← felt? h
+    let shift := Felt.pow 2 hF.val
+    let shifted := (idx.zip val).map fun (i, v) => (⟨i + shift, v, hF⟩ : Vector.QD)
+    let au ← felts? auths
+    pure (out hx (Vector.computeRoot H (← felt? nf) (shifted.length + au.length + 1) shifted au))
   | ["tdecommit", root, nc, h, nf, qs, vals, auths] => do
     pure (out unit (Table.decommit H ⟨← felt? nc, ⟨⟨← felt? h, ← felt? nf⟩, ← felt? root⟩⟩
       (← felts? qs) (← felts? vals) (← felts? auths)))
@@ -207,33 +225,37 @@ def answer? (ctx : Ctx) (H : Hashes) (_stone6 : Bool) (toks : List String) : Opt
     pure (out unit (Fri.verifyLastLayer qs (← felts? coefs)))
   | "validate_pi" :: layout :: rest =>
     if rest.length ≠ 12 then none else do
-    let D ← ctx.data? layout
+    let (L, _) ← ctx.lay? H layout
     let pi ← parsePI? (rest.take 10)
     match rest.drop 10 with
     | [t, c] =>
       match StarkDomains.new (← felt? t) (← felt? c) with
-      | .ok d => pure (out unit (D.validatePublicInput pi d))
+      | .ok d => pure (out unit (L.validatePublicInput pi d))
       | .err _ => pure "err"
       | .panic s => pure ("panic " ++ s)
     | _ => none
   | "verify_pi" :: layout :: rest =>
     if rest.length ≠ 10 then none else do
-    let D ← ctx.data? layout
+    let (L, _) ← ctx.lay? H layout
     let pi ← parsePI? rest
-    pure (out (fun ((a, b) : Felt × Felt) => s!"{hx a} {hx b}") (D.verifyPublicInput H pi))
+    pure (out (fun ((a, b) : Felt × Felt) => s!"{hx a} {hx b}") (L.verifyPublicInput pi))
   | "eval_comp" :: layout :: ie :: rest =>
     if rest.length ≠ 15 then none else do
-    let D ← ctx.data? layout
+    let (L, ief) ← ctx.lay? H layout
     let pi ← parsePI? (rest.take 10)
-    let iev ← gvArray? D.interactionFields ie
+    let iev ← gvArray? ief ie
     match rest.drop 10 with
     | [mask, coeffs, point, tds, tgen] =>
-      pure (out hx (D.evalComposition iev.toList pi (← felts? mask) (← felts? coeffs) (← felt? point) (← felt? tds) (← felt? tgen)))
+      pure (out hx (L.evalComposition iev.toList pi (← felts? mask) (← felts? coeffs) (← felt? point) (← felt? tds) (← felt? tgen)))
     | _ => none
   | "verify" :: layout :: sec :: rest => do
-    let D ← ctx.data? layout
+    let (L, _) ← ctx.lay? H layout
     let p ← parseProof? rest
-    pure (out (fun ((a, b) : Felt × Felt) => s!"{hx a} {hx b}") (Stark.verify (D.ops H) H _stone6 p (← felt? sec)))
+    pure (out (fun ((a, b) : Felt × Felt) => s!"{hx a} {hx b}") (Stark.verify L H _stone6 p (← felt? sec)))
+  | ["check_asserts", dps, t] => do
+    -- the translated `check_asserts` alone: `check_asserts <dynamic params> <trace_length>`
+    let D ← ctx.dyn
+    pure (out unit (DynAsserts.check D.usizeMax (← nats? dps).toArray (← felt? t) D.asserts))
   | "comp_inner" :: layout :: mask :: coeffs :: point :: tgen :: gv :: rest => do
     let L ← ctx.find? layout
     let dp ← match rest with | [] => some #[] | [d] => (nats? d).map (·.toArray) | _ => none
